@@ -174,10 +174,15 @@ pub struct TwinCase {
     pub seed: u64,
     pub n_collect: usize,
     pub n_discard: usize,
+    /// > 0: both twins first make a pilot run(prior, 1) ("from the same sampler state" includes
+    /// samplers that have run before)
+    #[serde(default)]
+    pub prior: usize,
 }
 
 fn twin_strategy() -> BoxedStrategy<TwinCase> {
-    bx((0u8..4, 0u8..4, prop_oneof![3 => 1usize..6, 2 => 6usize..10], any::<u64>(), 4usize..14, 0usize..8).prop_map(|(kind, combo, chains, seed, n_collect, n_discard)| TwinCase {
+    bx((0u8..4, 0u8..4, prop_oneof![3 => 1usize..6, 2 => 6usize..10], any::<u64>(), 4usize..14, 0usize..8, prop_oneof![3 => Just(0usize), 2 => 1usize..6]).prop_map(|(kind, combo, chains, seed, n_collect, n_discard, prior)| TwinCase {
+        prior,
         kind,
         combo,
         chains,
@@ -211,6 +216,11 @@ where
     let build = || HMC::<T, B, HTarget>::new(HTarget::new(gspec()), inits.clone(), T::from_f64(0.3).unwrap(), 3).set_seed(c.seed);
     let mut a = build();
     let mut b = build();
+    if c.prior > 0 {
+        let _ = a.run(c.prior, 1);
+        let _ = b.run(c.prior, 1);
+        cov.class("sampler-had-run-before");
+    }
     let plain = tensor_to_array(&a.run(c.n_collect, c.n_discard));
     let r = no_panic(|| b.run_progress(c.n_collect, c.n_discard)).map_err(|m| Fail::new("progress-panic precision", format!("HMC::run_progress panicked (T = {}, backend float = {}): {m}", std::any::type_name::<T>(), std::any::type_name::<B::FloatElem>())))?;
     let (t, stats) = r.map_err(|e| Fail::new("progress-error", format!("HMC::run_progress returned an error: {e}")))?;
@@ -240,12 +250,29 @@ where
     Exp1: rand_distr::Distribution<T>,
 {
     let inits: Vec<Vec<T>> = (0..c.chains).map(|i| vec![T::from_f64(0.3 * i as f64 - 0.5).unwrap(), T::from_f64(1.0 - 0.2 * i as f64).unwrap()]).collect();
-    let build = || NUTS::<T, B, HTarget>::new(HTarget::with_budget(gspec(), 400_000), inits.clone(), T::from_f64(0.8).unwrap()).set_seed(c.seed);
-    let mut a = build();
-    let mut b = build();
+    let (ta, tb) = (HTarget::with_budget(gspec(), 60_000), HTarget::with_budget(gspec(), 60_000));
+    let mut a = NUTS::<T, B, HTarget>::new(ta.clone(), inits.clone(), T::from_f64(0.8).unwrap()).set_seed(c.seed);
+    let mut b = NUTS::<T, B, HTarget>::new(tb.clone(), inits.clone(), T::from_f64(0.8).unwrap()).set_seed(c.seed);
+    // (a chain that has run before and is then asked for a longer warm-up re-opens dual averaging
+    // in mid-stream, which can collapse the step size and cost minutes: after a pilot run the
+    // compared runs use no warm-up)
+    let n_discard = if c.prior > 0 { 0 } else { c.n_discard };
+    let c = &TwinCase { n_discard, ..c.clone() };
+    if c.prior > 0 {
+        let _ = a.run(c.prior, 1);
+        let _ = b.run(c.prior, 1);
+        cov.class("sampler-had-run-before");
+    }
     // the same trajectory shifted by NUTS's one-draw offset
     let plain = tensor_to_array(&a.run(c.n_collect + 1, c.n_discard));
-    let r = no_panic(|| b.run_progress(c.n_collect, c.n_discard)).map_err(|m| Fail::new("progress-panic precision", format!("NUTS::run_progress panicked (T = {}, backend float = {}): {m}", std::any::type_name::<T>(), std::any::type_name::<B::FloatElem>())))?;
+    let r = no_panic(|| b.run_progress(c.n_collect, c.n_discard));
+    if ta.exhausted() || tb.exhausted() {
+        // the two twins evaluate the target a different number of times (run makes one draw
+        // more): once a budget ran out their trajectories are no longer comparable
+        cov.class("evaluation-budget-exhausted-skip");
+        return Ok(());
+    }
+    let r = r.map_err(|m| Fail::new("progress-panic precision", format!("NUTS::run_progress panicked (T = {}, backend float = {}): {m}", std::any::type_name::<T>(), std::any::type_name::<B::FloatElem>())))?;
     let (t, stats) = r.map_err(|e| Fail::new("progress-error", format!("NUTS::run_progress returned an error: {e}")))?;
     let prog = tensor_to_array(&t);
     ensure!(prog.shape() == [c.chains, c.n_collect, 2], "progress-shape", "NUTS::run_progress shape {:?}", prog.shape());
@@ -313,6 +340,11 @@ fn check_twin(c: &TwinCase, cov: &mut Cov) -> CheckResult {
             };
             let mut a = build();
             let mut b = build();
+            if c.prior > 0 {
+                let _ = a.run(c.prior, 1);
+                let _ = b.run(c.prior, 1);
+                cov.class("sampler-had-run-before");
+            }
             let plain = a.run(c.n_collect, c.n_discard).map_err(|e| Fail::new("run-error", e.to_string()))?;
             let r = no_panic(|| b.run_progress(c.n_collect, c.n_discard)).map_err(|m| Fail::new("progress-panic", format!("MH run_progress panicked: {m}")))?;
             let (prog, stats) = r.map_err(|e| Fail::new("progress-error", format!("MH run_progress returned an error: {e}")))?;
@@ -328,6 +360,11 @@ fn check_twin(c: &TwinCase, cov: &mut Cov) -> CheckResult {
             let build = || GibbsSampler::new(NoisyConditional { rng: SmallRng::seed_from_u64(c.seed) }, inits.clone()).set_seed(c.seed);
             let mut a = build();
             let mut b = build();
+            if c.prior > 0 {
+                let _ = a.run(c.prior, 1);
+                let _ = b.run(c.prior, 1);
+                cov.class("sampler-had-run-before");
+            }
             let plain = a.run(c.n_collect, c.n_discard).map_err(|e| Fail::new("run-error", e.to_string()))?;
             let r = no_panic(|| b.run_progress(c.n_collect, c.n_discard)).map_err(|m| Fail::new("progress-panic", format!("Gibbs run_progress panicked: {m}")))?;
             let (prog, stats) = r.map_err(|e| Fail::new("progress-error", format!("Gibbs run_progress returned an error: {e}")))?;
@@ -453,6 +490,98 @@ fn check_drop(c: &DropCase, cov: &mut Cov) -> CheckResult {
     Ok(())
 }
 
+// ---------------------------------------------------------------------------------------------
+// (d) NUTS's own progress display with chains of very different speeds
+// ---------------------------------------------------------------------------------------------
+
+/// every clone (= every chain of a NUTS sampler) sleeps its own time per evaluation
+struct PacedTarget {
+    inner: HTarget,
+    delays_us: Arc<Vec<u32>>,
+    id: usize,
+    next_id: Arc<std::sync::atomic::AtomicUsize>,
+}
+impl Clone for PacedTarget {
+    fn clone(&self) -> Self {
+        PacedTarget {
+            inner: self.inner.clone(),
+            delays_us: self.delays_us.clone(),
+            id: self.next_id.fetch_add(1, std::sync::atomic::Ordering::SeqCst) + 1,
+            next_id: self.next_id.clone(),
+        }
+    }
+}
+impl mini_mcmc::distributions::GradientTarget<f64, B64> for PacedTarget {
+    fn unnorm_logp(&self, position: burn::prelude::Tensor<B64, 1>) -> burn::prelude::Tensor<B64, 1> {
+        if self.id > 0 && !self.delays_us.is_empty() {
+            let us = self.delays_us[(self.id - 1) % self.delays_us.len()];
+            if us > 0 {
+                std::thread::sleep(Duration::from_micros(us as u64));
+            }
+        }
+        <HTarget as mini_mcmc::distributions::GradientTarget<f64, B64>>::unnorm_logp(&self.inner, position)
+    }
+}
+
+#[derive(Debug, Clone, Serialize, Deserialize)]
+pub struct StragglerCase {
+    pub chains: usize,
+    pub seed: u64,
+    pub n_collect: usize,
+    pub n_discard: usize,
+    /// per-chain delay per target evaluation, microseconds (0 = as fast as it goes)
+    pub delays_us: Vec<u32>,
+}
+
+fn straggler_strategy() -> BoxedStrategy<StragglerCase> {
+    // most chains fast, a few finish together a little later, one or two stragglers
+    let delay = prop_oneof![5 => Just(0u32), 2 => 200u32..1500, 2 => 4_000u32..9_000, 2 => 15_000u32..40_000];
+    bx((6usize..=14, any::<u64>(), 3usize..7, 0usize..4).prop_flat_map(move |(chains, seed, n_collect, n_discard)| {
+        (Just(chains), Just(seed), Just(n_collect), Just(n_discard), proptest::collection::vec(delay.clone(), chains))
+    })
+    .prop_map(|(chains, seed, n_collect, n_discard, delays_us)| StragglerCase { chains, seed, n_collect, n_discard, delays_us }))
+}
+
+fn check_straggler(c: &StragglerCase, cov: &mut Cov) -> CheckResult {
+    let inits: Vec<Vec<f64>> = (0..c.chains).map(|i| vec![0.3 * i as f64 - 0.5, 1.0 - 0.2 * i as f64]).collect();
+    let (ia, ib) = (HTarget::with_budget(gspec(), 60_000), HTarget::with_budget(gspec(), 60_000));
+    let mk = |delays: Vec<u32>, inner: &HTarget| PacedTarget {
+        inner: inner.clone(),
+        delays_us: Arc::new(delays),
+        id: 0,
+        next_id: Arc::new(std::sync::atomic::AtomicUsize::new(0)),
+    };
+    let mut a = NUTS::<f64, B64, PacedTarget>::new(mk(vec![], &ia), inits.clone(), 0.8).set_seed(c.seed);
+    let mut b = NUTS::<f64, B64, PacedTarget>::new(mk(c.delays_us.clone(), &ib), inits.clone(), 0.8).set_seed(c.seed);
+    let plain = tensor_to_array(&a.run(c.n_collect + 1, c.n_discard));
+    let r = no_panic(|| b.run_progress(c.n_collect, c.n_discard));
+    if ia.exhausted() || ib.exhausted() {
+        cov.class("evaluation-budget-exhausted-skip");
+        return Ok(());
+    }
+    let r = r.map_err(|m| Fail::new("progress-panic stragglers", format!("NUTS::run_progress with {} chains of different speeds panicked: {m}", c.chains)))?;
+    let (t, _stats) = r.map_err(|e| Fail::new("progress-error", format!("NUTS::run_progress returned an error: {e}")))?;
+    let prog = tensor_to_array(&t);
+    ensure!(prog.shape() == [c.chains, c.n_collect, 2], "progress-shape", "NUTS::run_progress shape {:?}", prog.shape());
+    for ch in 0..c.chains {
+        for k in 0..c.n_collect {
+            for j in 0..2 {
+                ensure!(
+                    prog[[ch, k, j]].to_bits() == plain[[ch, k + 1, j]].to_bits(),
+                    "progress-draws-differ",
+                    "NUTS::run_progress with chains of different speeds: entry [chain {ch}, {k}, {j}] differs from the identically seeded twin's run"
+                );
+            }
+        }
+    }
+    let distinct: std::collections::BTreeSet<u32> = c.delays_us.iter().cloned().collect();
+    if distinct.len() >= 3 {
+        cov.nontrivial_u64(fingerprint(c));
+    }
+    cov.class(if c.chains >= 7 { "nuts-stragglers >=7 chains" } else { "nuts-stragglers 6 chains" });
+    Ok(())
+}
+
 pub fn run(ctx: &mut Ctx) {
     ctx.rule = "user-defined chains with per-chain speed profiles (total run times 0..700 ms, so different subsets finish between the reporter's 250 ms polls), 1..48 chains (bars recycled above 5), n_collect 4..20, n_discard 0..20; MH / Gibbs / HMC / NUTS twins (run vs run_progress, identical seeds), element type x backend in {f32,f64}^2 for HMC and NUTS; run_chain_progress with the receiver dropped before / at step k / never; non-trivial = > 5 chains with >= 2 distinct speeds, a non-f32 combination, or a receiver dropped mid-run; distinct by case fingerprint".into();
     ctx.assume("termination is observed, not proved: every case runs under a 45 s watchdog in a child process; a timeout is confirmed by re-running the case alone with twice the limit");
@@ -463,5 +592,6 @@ pub fn run(ctx: &mut Ctx) {
     let t = ctx.tier;
     ctx.section("user-chains", "run_progress on user chains: draws = counter model (what run returns), exact transition count, RunStats = RunStats::from(draws), returns Ok, terminates", t.pick(260, 8_000), 16, user_strategy, check_user);
     ctx.section("sampler-twins", "run_progress vs run of an identically seeded twin (NUTS: shifted by one draw), RunStats from the returned draws, all precision combinations", t.pick(320, 10_000), 16, twin_strategy, check_twin);
+    ctx.section("nuts-stragglers", "NUTS::run_progress with 6..14 chains whose per-evaluation delays differ by orders of magnitude (groups finishing within one 250 ms refresh, stragglers): returns Ok with the draws of the twin's run", t.pick(32, 800), 16, straggler_strategy, check_straggler);
     ctx.section("receiver-dropped", "run_chain_progress with a receiver dropped before / during / never: draws bitwise those of run_chain, Ok, exact transition count", t.pick(4_000, 120_000), 16, drop_strategy, check_drop);
 }
